@@ -12,6 +12,7 @@ import xarray as xr
 
 from ..core import exc_sig
 from ..ref import simple as S
+from .c01 import reset  # noqa: F401  (replay hook: the per-call mappings shared between Grids)
 from .c01 import (ML, MN, RULES, axis_orders, build_grid, compare, rows,
                   supplies_for, supply_kwargs, arrangements)
 
@@ -221,6 +222,8 @@ def part_laws(rec, li, n, seed, only=None):
     # a dyadic, non-uniform metric at every position of the layout
     for p in layout:
         ds["dx_" + p] = ((S.dimname("X", p),), 2.0 ** (np.arange(S.pos_len(p, n)) % 3 - 1) * (1 + (np.arange(S.pos_len(p, n)) % 2)))
+    # a second metric for the centre position, registered only later (overwrite) on the same Grid
+    ds["dx_center_new"] = ((S.dimname("X", "center"),), 3.0 ** (np.arange(n) % 2) * (1 + (np.arange(n) % 3)))
     with warnings.catch_warnings():
         warnings.simplefilter("ignore")
         g = Grid(ds, coords=S.grid_coords({"X": layout}), periodic=False, autoparse_metadata=False,
@@ -258,6 +261,47 @@ def part_laws(rec, li, n, seed, only=None):
                         rec.violation("law-cumint", "last-not-integrate", case, it.values, ci.values[..., -1])
             except Exception as e:
                 rec.violation("law-cumint", "raise:" + exc_sig(e), case, "array", str(e)[:200])
+            # the same with a metric that does not vary along the integrated axis (dx as a function of y only, as on a regular
+            # longitude / latitude grid): still cumsum(data * metric), the value supplied by the boundary rule included
+            case2 = dict(case, metric="no-axis-dimension")
+            if only is not None and only != case2:
+                continue
+            rec.case(("law-cumint-y", li, n, to, rule, fv), True, sample=case2, calls=1)
+            try:
+                ds2 = S.make_ds({"X": layout, "Y": ("center", "left")}, {"X": n, "Y": base.shape[0]})
+                wy = 2.0 ** (np.arange(base.shape[0]) % 3) * 0.5
+                ds2["dx_of_y"] = ((S.dimname("Y", "center"),), wy)
+                with warnings.catch_warnings():
+                    warnings.simplefilter("ignore")
+                    g2 = Grid(ds2, coords=S.grid_coords({"X": layout, "Y": ("center", "left")}), periodic=False, autoparse_metadata=False,
+                              metrics={("X",): ["dx_of_y"]})
+                da2 = xr.DataArray(base.copy(), dims=[S.dimname("Y", "center"), S.dimname("X", "center")])
+                ci2 = g2.cumint(da2, "X", to=to, boundary=rule, fill_value=fv)
+                exp2 = S.ref_cumsum(base * wy[:, None], "center", to, n, rule, fv)
+                got2 = ci2.transpose(S.dimname("Y", "center"), S.dimname("X", to)).values
+                if not np.allclose(got2, exp2, rtol=1e-12, atol=0):
+                    rec.violation("law-cumint", "not-cumsum-of-weighted:metric-without-axis-dimension", case2, exp2, got2)
+            except Exception as e:
+                rec.violation("law-cumint", "raise:metric-without-axis-dimension:" + exc_sig(e), case2, "array", str(e)[:200])
+    # the metric at the centre is replaced on the same Grid (after all the calls above): cumint follows the registry
+    case3 = dict(part="law", law="cumint-after-overwrite", li=li, n=n)
+    if only is None or only == case3:
+        rec.case(("law-cumint-ow", li, n), True, sample=case3, calls=len(layout))
+        try:
+            with warnings.catch_warnings():
+                warnings.simplefilter("ignore")
+                g.set_metrics(("X",), "dx_center_new", overwrite=True)
+            w2 = ds["dx_center_new"].values
+            for to in layout:
+                if to == "center":
+                    continue
+                ci = g.cumint(da, "X", to=to, boundary="fill", fill_value=0.0)
+                exp = S.ref_cumsum(base * w2, "center", to, n, "fill", 0.0)
+                if not np.allclose(ci.values, exp, rtol=1e-12, atol=0):
+                    rec.violation("law-cumint", "stale-metric-after-overwrite", dict(case3, to=to), exp, ci.values)
+                    break
+        except Exception as e:
+            rec.violation("law-cumint", "raise-after-overwrite:" + exc_sig(e), case3, "array", str(e)[:200])
 
 
 def shards(tier, seed):
